@@ -142,6 +142,7 @@ Init ==
 
 \* a new scenario starts (fresh process state); drift is cumulative
 Reset(features, mask) ==
+    /\ pending = << >> /\ planning = << >>          \* every call of the previous scenario was closed by a CallEnd / PlanEnd
     /\ cfg' = [features |-> features, mask |-> mask]
     /\ planners' = << >> /\ cache' = << >> /\ insts' = << >>
     /\ planning' = << >> /\ pending' = << >> /\ refs' = << >>
@@ -200,8 +201,27 @@ AvxChainExpected(elem, n, cache0) ==
     LET plan == AvxPlanFft(elem, HasBit(cfg.mask, BitAvx2), n, cache0) IN
     IF IsPanicPlan(plan) THEN << >>
     ELSE <<plan.base.len>> \o ChainLens(plan.radixes, 1, plan.base.len)
+\* Faithful layer for the scalar / SSE planners' build_fft: the recipe tree is walked in post-order, a node whose
+\* length is already cached (for this direction) is taken from the cache together with its whole subtree, every node
+\* built is inserted.  Returns the sequence of lengths built.
+RECURSIVE VisitNode(_, _, _)
+VisitNode(t, i, c) ==
+    LET len == NodeLen(t, i) IN
+    IF len \in c THEN [b |-> << >>, c |-> c]
+    ELSE LET ch == t[i].ch
+             r1 == IF Len(ch) >= 1 THEN VisitNode(t, ch[1], c) ELSE [b |-> << >>, c |-> c]
+             r2 == IF Len(ch) >= 2 THEN VisitNode(t, ch[2], r1.c) ELSE [b |-> << >>, c |-> r1.c]
+         IN [b |-> (r1.b \o r2.b) \o <<len>>, c |-> r2.c \cup {len}]
+RecipeBuildsExpected(kind, n, cache0) ==
+    LET t == IF kind = "scalar" THEN ScalarPlan(n) ELSE SsePlan(n) IN VisitNode(t, Len(t), cache0).b
+
 BuildChainDrift(p) ==
     LET pl == planners[p.pid] IN
+    IF pl.backend \in {"scalar", "sse"} /\ pl.kind \in {"scalar", "sse"} /\ Len(p.builds) > 0
+    THEN LET exp == RecipeBuildsExpected(pl.backend, p.n, p.cache0)
+             obs == [i \in DOMAIN p.builds |-> p.builds[i][2]]
+         IN DriftIf(exp # obs, <<"recipe-builds", pl.backend, p.n, p.dir, exp, obs>>)
+    ELSE
     IF pl.backend = "avx" /\ pl.elem \in SimdElems /\ Len(p.builds) > 0
     THEN LET exp == AvxChainExpected(pl.elem, p.n, p.cache0)
              k   == Len(exp)
